@@ -458,6 +458,8 @@ pub fn run(cmd: &str, args: &[&str]) -> String {
             let mut outs: Vec<String> = Vec::new();
             let tracing = std::env::var("WV_TRACE").is_ok();
             for (i, fen) in fens.split('|').enumerate() {
+                // "fen@d" overrides the depth limit for this search of the chain
+                let (fen, depth) = match fen.rsplit_once('@') { Some((f, d)) => (f, Some(d.parse().unwrap())), None => (fen, depth) };
                 let Some(st) = state_of(fen) else { outs.push("badfen".into()); continue };
                 let mut evs: Vec<String> = Vec::new();
                 verif::set_tracing(true);
